@@ -160,7 +160,7 @@ def run(ctx):
            "the class of row 0 is numbered 0: the other live rows are numbered from 1 and exclude canon(0)" if okb else
            "compaction numbers the live rows in index order without regard to which row represents the class of row 0 (%s): after a merge in which row 0 lost, the base coset is no longer row 0" % why)
 
-    siblings_agree(ctx, "T4-siblings-agree", "fpgroups::cosets::scan", "fpgroups::cosets::scan_inverse", "forward scan ~ backward scan")
+    siblings_agree(ctx, "T4-siblings-agree", "fpgroups::cosets::scan", "fpgroups::cosets::scan_inverse", "forward scan ~ backward scan", ignore=("len",))
     # ---------- (2) coset_representative
     ctx.clauses.append("representatives are read off the table (T2/T3)")
     cr = ctx.body("fpgroups::cosets::coset_representative")
